@@ -801,7 +801,10 @@ def run(ctx):
     import ib_ingest
     import file_corr
     import export_inputs_thms          # whole-program forms (Props/ExportInputs) about exportFile / framesFrom
-    ctx.prove(["TLX.Props.C12"] + ib_ingest.MODULES + export_inputs_thms.MODULES)
+    import translate                 # DecryptionSecretBlock.unpack re-translated from the source and proved equal to the model
+    _tm, _tt = translate.wire(ctx, "C12")
+    ctx.prove(["TLX.Props.C12"] + ib_ingest.MODULES + export_inputs_thms.MODULES + _tm)
+    ctx.require_theorems(_tt)
     ctx.require_theorems(export_inputs_thms.THEOREMS_C12)
     ctx.require_theorems(THEOREMS + ib_ingest.THEOREMS)
     run_correspondence(ctx)
